@@ -564,7 +564,12 @@ def corpus_plans():
 
 
 def d7_plans():
-    """Glob match that a step builds, together with each way the code can already be non-zero."""
+    """Glob match that a step builds, together with each way the code can already be non-zero.
+
+    Finding D7 (fixed in /repo by 4c893f7): before the fix the last three ended with PENDING, WARNING
+    and DRAINED alone.  They stay in the corpus as regression scenarios; the oracle names a relapse
+    `report_unbuilt:glob-error-skipped:*`.
+    """
     glob = ("glob", "keep", "built", None)
     common_ops = [("statics", ["s0.txt"]), ("missing", ["m0.txt"]),
                   ("step", "keep", None, ["s0.txt"], ["k.txt"], [], {}, False), ("succeed", "keep")]
@@ -629,8 +634,16 @@ def correspondence(ctx):
         failing = [re.sub(r"\s+", " ", p)[:160] for p, v in zip(parts, vals) if v != "true"]
         first = failing[0].split(" ")[0].strip("(") if failing else "?"
         comp = _component(failing[0]) if failing else "?"
+        note = ""
+        if comp.startswith("report_unbuilt"):
+            ru = (f"(ru_of_snap sn {coq_bool(obs['draining'])} {len(obs['miss_t'])} {len(obs['miss_d'])} "
+                  f"{len(obs['glob_warn'])} {len(obs['glob_err'])})")
+            pre = common.eval_terms(ctx, "diagpre", HEADER, [f"let sn := {sn} in (report_unbuilt_prefix {ru} =? {obs['rc']})"])
+            if pre and pre[0] == "true":
+                note = (" -- the implementation behaves like the guard chain before fix 4c893f7 "
+                        "(D7 regression, cf. C19_prefix_guard_chain_refuted)")
         ctx.add_failure("correspondence", "snapshot:" + comp, f"E2:model-vs-analyze_pending:{comp}",
-                        f"model and implementation disagree on: {failing[:4]}; summary={obs['summary']}; rc={obs['rc_name']}",
+                        f"model and implementation disagree on: {failing[:4]}{note}; summary={obs['summary']}; rc={obs['rc_name']}",
                         witness={"plan": plan, "snapshot": obs["snap"], "first": first})
 
 
@@ -737,7 +750,8 @@ def oracle_case(ctx, plan, obs, tag=None):
             fails.append(("returncode:FAILED-step-without-FAILED-bit", f"rc={obs['rc_name']} nfailed={failed_attached}"))
         elif obs["draining"]:
             fails.append(("report_unbuilt:glob-error-skipped:draining",
-                          f"glob match(es) {glob_err} are files a step builds, exit status {obs['rc_name']} has no FAILED bit"))
+                          f"glob match(es) {glob_err} are files a step builds, exit status {obs['rc_name']} has no FAILED bit "
+                          "(D7 regression: behaviour of the guard chain before fix 4c893f7)"))
         elif rc != 0:
             fails.append(("report_unbuilt:glob-error-skipped:returncode-already-nonzero",
                           f"glob match(es) {glob_err} are files a step builds, exit status {obs['rc_name']} has no FAILED bit"))
